@@ -99,6 +99,9 @@ def run(ctx, idx):
         if not divs and name == "Mean" and any(meth == "mean" for node_, sel_, meth, fk_ in r.layer_reduces):
             ctx.hold("C07.c", con, d.module.rel, d.execute.node.lineno, "the mean is taken by a layer-axis mean over the stacked inputs (no division of its own; missing cells decided under C07.d)")
             continue
+        if not divs and name == "WeightedMean" and any(meth == "weighted-average" for node_, sel_, meth, fk_ in r.layer_reduces):
+            ctx.hold("C07.c", con, d.module.rel, d.execute.node.lineno, "the weighted mean is taken by numpy.ma.average over the stacked inputs, which divides by the weight sum as masked arrays")
+            continue
         if not divs:
             ctx.violate("C07.c", con, d.module.rel, d.execute.node.lineno, "%s performs no array division at all" % name)
             continue
